@@ -156,4 +156,19 @@ PROPS = {
                                      "token minting (CreateAccessToken / CreateIDToken) is hand-modelled as 'returns a non-empty token of the requested kind'"],
         "assumptions": ["'live' = known to the reference storage, unexpired, unrevoked (access / refresh tokens); verifies and unexpired (ID tokens)"],
     },
+    "C06": {
+        "proof_module": "OidcModel.Proofs.C06",
+        "theorems": ["C06.c06_id_token_claims_verify", "C06.c06_exp_iat_bracket", "C06.c06_absent_auth_time_stays_absent", "C06.c06_audience_azp",
+                     "C06.c06_access_token_claims", "C06.c06_hash_binding", "C06.asTime_fromTime_bounds"],
+        "cases": {"quick": 1200, "thorough": 20000},
+        "rule": "one issuance per case against a fresh provider served over a real HTTP listener: flows (code, implicit id_token token / id_token, refresh, device, token exchange -> id_token, "
+                "jwt-bearer, client_credentials) x routers x signing keys / algorithms (RS256, RS384, PS256, ES256, ES384, EdDSA) x opaque / JWT access tokens x client clock skew (0, 5 s, 2 min) x "
+                "ID-token lifetimes x scope sets x userinfo-assertion flag x storage variants (userinfo from scopes / from request) x a retired key still published; every ID token goes through the REAL "
+                "rp.VerifyTokens / rp.VerifyIDToken with a remote key set fetched from the provider's /keys and the algorithms its discovery document advertises, every JWT access token through "
+                "op.VerifyAccessToken, every opaque token is really decrypted; non-trivial = not the modal class",
+        "trivial_class": r"code:RS256:tokens:opaque",
+        "trusted_base": COMMON_TB + ["the verdicts of the real verifiers enter the monitor as observed facts",
+                                     "CreateIDToken / CreateAccessToken / CreateTokenResponse themselves are not translated: the theorems are about the claim constructors they call"],
+        "assumptions": ["instants after 1970-01-01T00:00:01Z, clock skew >= 0 (theorem hypotheses)"],
+    },
 }
